@@ -142,7 +142,7 @@ class Ctx:
         self.only = None
 
     def want(self, part):
-        return self.only is None or part in self.only
+        return (self.only is None or part in self.only) and part not in getattr(self, "skip", ())
 
     def parallel(self, thunks, workers=NCPU):
         """run independent thunks (each typically one TLC invocation) concurrently; returns results in order"""
